@@ -83,9 +83,15 @@ def main(tier):
     sd = seed()
     rnd = random.Random(sd)
     # --- design level -------------------------------------------------------------------
-    r = tlc_ok(tlc("OrderedMap", "OrderedMap_deep.cfg" if thorough else "OrderedMap.cfg", timeout=3000), "OrderedMap")
+    r = tlc_ok(tlc("OrderedMap", "OrderedMap.cfg", timeout=3000), "OrderedMap")
     chk.add_tlc(r)
     chk.extra["ordered_map_states"] = r.states
+    if thorough:
+        # 2 threads x 3 operations each, all operations; 3 threads x 2 operations over SetToTop / Update / Each
+        for cfg in ("OrderedMap_deep.cfg", "OrderedMap_deep3.cfg"):
+            rd = tlc_ok(tlc("OrderedMap", cfg, timeout=6000), "OrderedMap " + cfg)
+            chk.add_tlc(rd)
+            chk.extra["ordered_map_states_" + cfg.split(".")[0]] = rd.states
     r2 = tlc_ok(tlc("OrderedMap", "OrderedMap_live.cfg", timeout=600), "OrderedMap liveness")
     chk.add_tlc(r2)
     neg = tlc("OrderedMap", "OrderedMap_unlocked.cfg", timeout=600)
@@ -176,7 +182,7 @@ def main(tier):
             sig = {"kind": "race", "what": where, "frames": top}
             chk.violation("data race reported by the Go race detector: %s" % top,
                           {"kind": "race", "report": rep[:3000], "signature": sig}, sig)
-    chk.rule = ("OrderedMap: exhaustive TLC (3 threads x 1 op quick, x 2 ops thorough; 2 keys; 7 operations); recorded histories: "
+    chk.rule = ("OrderedMap: exhaustive TLC (3 threads x 1 op, 8 operations, 2 keys; thorough adds 2 threads x 3 ops with all operations and 3 threads x 2 ops over SetToTop/Update/Each); recorded histories: "
                 "5 collection types x seeded programs with 3-8 goroutines, rounds separated by barriers; whole library: groups of 16 "
                 "documents concurrently + 8 concurrent readers of one catalog; race detector on the same drivers")
     chk.assumptions += ["invoke/return order from one atomic counter taken before the call and after its return",
